@@ -47,7 +47,12 @@ class BoundedResult:
         self.note = ''
 
     def fail(self, label, inp, observed=None):
-        if len(self.failures) < 50:
+        # keep a few failing inputs per (label, kind of observation): a frequent (e.g. known) failure must not
+        # crowd a different one out of the report
+        key = (label, re.sub(r'\d+', '#', str(observed))[:160])
+        self._kinds = getattr(self, '_kinds', {})
+        self._kinds[key] = self._kinds.get(key, 0) + 1
+        if self._kinds[key] <= 3 and len(self.failures) < 400:
             self.failures.append((label, inp, observed))
 
 
@@ -286,8 +291,9 @@ def run_property(prop: Property, tier='quick', seed=0, only=None):
     for name, c, e in failed_obligations:
         if name in seen_names:
             continue
-        seen_names.add(name)
-        replay = dict(property=prop.id, obligation=name, site=e.get('site', ''),
+        if not e.get('bounded'):
+            seen_names.add(name)        # (bounded failures: every distinct failing input is looked at, so that a
+        replay = dict(                  #  known finding does not hide a different failure under the same label)property=prop.id, obligation=name, site=e.get('site', ''),
                       counter_model=e.get('data'), solver='z3 ' + z3.get_version_string())
         reproduced = False
         if e.get('bounded'):
@@ -328,8 +334,10 @@ def run_property(prop: Property, tier='quick', seed=0, only=None):
                 except Exception as exc:    # noqa
                     ok, detail = False, repr(exc)
             if ok:
-                known_hit.append(kf)
+                if kf not in known_hit:
+                    known_hit.append(kf)
                 continue
+        seen_names.add(name)
         path = os.path.join(outdir, sanitize(name) + '.json')
         replay['replay_cmd'] = f'./check {prop.id} --replay {path}'
         with open(path, 'w') as f:
